@@ -153,6 +153,26 @@ def flat_harness(u, n, b, maxsz, maxbl, depth):
     return hgen.harness([u], body)
 
 
+def wide_harness(u, n, b):
+    """entry addresses for header values over the WHOLE type range (schema extension can make the wire blockLength arbitrarily large): only addresses are formed, nothing is dereferenced"""
+    Pn = "%s_%s" % (n, b)
+    body = r"""
+  enum { N = 48, HDR = 8, SB = %(sb)d, SN = %(sn)d };
+  IN_BYTES(buf, N);
+  u64 rbl = ref_rd(buf + 0, 2, 0); VASSUME(rbl <= 2);
+  u64 gpos = HDR + rbl;
+  u64 bl = ref_rd(buf + gpos, SB, 0), cnt = ref_rd(buf + gpos + SB, SN, 0);
+  VASSUME((unsigned __int128)bl * cnt < ((unsigned __int128)1 << 48)); VASSUME(bl < ((u64)1 << 47));
+  u64 data0 = gpos + SB + SN;
+  IN(u64, i); VASSUME(i < cnt && i < 4);
+  i64 a = -1;
+  CALL(a = at_%(P)s(buf, N, i));    /* one library call per query: each one carries a 64-bit symbolic multiplication */
+  VASSERT(!verif_aborted, "no handler");
+  VASSERT(a == (i64)(data0 + i * bl), "entry i (operator[] = *(begin()+i)) starts at data start + i x wire blockLength for every blockLength of the type");
+""" % {"sb": U[b], "sn": U[n], "P": Pn}
+    return hgen.harness([u], body)
+
+
 def nested_harness(u, n, maxsz):
     body = r"""
   enum { N = 64, HDR = 8, S = %(s)d, MAXSZ = %(maxsz)d };
@@ -209,6 +229,11 @@ def build(ctx):
                                             backends=["minisat", "z3"], cap=ctx.q(300, 900), defines=["VERIF_WHICH=%d" % arm],
                                             desc="flat group numInGroup=%s blockLength=%s, arm %d of {0 iterator op sequences, 1 comparisons+distance, 2 it[n], 3 (it+n)-n, 4 begin/end/size/size_bytes, 5 operator[]/front/back, 6 range-for, 7 resize frame, 8 clear frame}" % (n, b, arm),
                                             bounds={"size": "0..%d" % maxsz, "blockLength": "0..%d" % maxbl, "depth": depth, "std": "c++" + std, "build": mode}))
+                for (n, b) in chunk:
+                    hs.append(P.Harness("flat_%s_%s_wide_%s_cxx%s" % (n, b, mode, std), wide_harness(u, n, b), [u], unwind=4, backends=["z3", "minisat", "kissat"], cap=ctx.q(300, 900),
+                                        extra_flags=["--no-standard-checks"],
+                                        desc="flat group numInGroup=%s blockLength=%s: operator[] / begin()[i] / back() addresses with header values over the whole type range" % (n, b),
+                                        bounds={"blockLength": "full %s range (< 2^47)" % b, "numInGroup": "full %s range" % n, "i": "< 4", "std": "c++" + std, "build": mode}))
             un = ctx.lower("c12n", cpp([], list(U)), std=std, mode=mode, incs=[inc])
             for n in U:
                 for arm in range(4):
